@@ -7,7 +7,7 @@ Per node (with its children):
                a finish notification is queued only while Finished, a block notification only while
                neither Idle nor Stoped, a replay only while not Idle; timers are armed only while
                not Idle (the timeout only while under way); the final hook ran exactly once iff the
-               action is Finished/Stoped; fields a kind never touches have their initial value.
+               action is Finished/Stoped; an Idle action has the fields of a freshly built one.
 * `shapeOk`    a leaf has no children.
 * `childrenOk` an action that is not under way has only quiet descendants; an Idle one only clean
                ones; below a serial composite that is under way only `curr` may be under way and
@@ -74,14 +74,6 @@ def CleanL : TL → Bool
   | .cons t ts => Clean t && CleanL ts
 end
 
-/-- fields a kind never touches keep their initial value -/
-def fieldsOk (d : Node) : Bool :=
-  (match d.kind with | .sleep _ => true | _ => d.sleepAt.isNone) &&
-  (match d.kind with | .seq _ => true | .ifThen => true | _ => d.index == 0) &&
-  (if d.isLeaf then d.curr.isNone && d.held.isNone && d.finished.isEmpty && d.heldPar.isEmpty
-   else if d.isPar then d.curr.isNone && d.held.isNone
-   else d.finished.isEmpty && d.heldPar.isEmpty)
-
 def taskOk (d : Node) (p : Nat × TK) : Bool :=
   match p.2 with
   | .fin _ _ => d.st == .finished && p.1 == d.finId && d.finId != 0
@@ -93,8 +85,7 @@ def nodeOk (d : Node) : Bool :=
   d.tasks.all (taskOk d) &&
   (d.tmoAt.isNone || d.underway) && (d.sleepAt.isNone || d.st != .idle) &&
   (d.finals == (if d.ended then 1 else 0)) &&
-  (d.st != .idle || cleanNode d) &&
-  fieldsOk d
+  (d.st != .idle || cleanNode d)
 
 def childrenOk (d : Node) (cs : TL) : Bool :=
   if d.st == .idle then CleanL cs
@@ -111,5 +102,8 @@ def WFL : TL → Bool
   | .nil => true
   | .cons t ts => WF t && WFL ts
 end
+
+/-- loop-side invariant: repaired configuration, run ids start at 1 -/
+def GI (g : G) : Prop := g.cfg = {} ∧ 1 ≤ g.nextId
 
 end Tbox.C17
